@@ -170,7 +170,7 @@ class State:
         n.dctx = [DecisionCtx()]
         # ids of a sub-state start above every id present in this state -- including records imported from earlier
         # sub-states under their own ids -- so that sibling sub-states can never re-issue an id that is already in use
-        top = max([self.next_id] + [k + 1 for m in (self.objs, self.lists, self.dicts) for k in m if isinstance(k, int)])
+        top = max([self.next_id] + [k + 1 for m in (self.objs, self.lists, self.dicts) for k in m if isinstance(k, int) and k < 50_000_000])
         n.next_id = top + 100000
         n.assumptions = self.assumptions  # shared on purpose: usage must propagate out of sub-runs
         n.inlined = self.inlined
